@@ -31,10 +31,10 @@ CONSTANTS Names,        \* sequence of names, = symbol-table order inside every 
 NameSet == {Names[i] : i \in DOMAIN Names}
 AllQuirks == {"uniqWeak", "weakZero", "wrapNoDef"}
 
-IsDefKind(d) == d \in {"weak", "strong", "common4", "common8", "unique"}
+IsDefKind(d) == d \in {"weak", "strong", "common4", "common8", "common16", "unique"}
 IsRefKind(d) == d \in {"undef", "weakundef"}
-IsCommon(d) == d \in {"common4", "common8"}
-CSize(d) == IF d = "common8" THEN 8 ELSE 4
+IsCommon(d) == d \in {"common4", "common8", "common16"}
+CSize(d) == CASE d = "common16" -> 16 [] d = "common8" -> 8 [] OTHER -> 4
 SharedKind(k) == k \in {"shared", "asneeded"}
 OptionalKind(k) == k \in {"member", "asneeded"}
 VisRank(v) == CASE v = "default" -> 0 [] v = "protected" -> 1 [] v = "hidden" -> 2
@@ -71,9 +71,10 @@ Commons(fs, L, n) == {f \in RegDefs(fs, L, n) : IsCommon(D(fs, f, n))}
 Weaks(fs, L, n) == {f \in RegDefs(fs, L, n) : D(fs, f, n) = "weak"}
 (* every shared object on the command line offers its symbols, needed or not *)
 ShDefs(fs, n) == {f \in FIdx(fs) : Shared(fs, f) /\ IsDefKind(D(fs, f, n))}
+(* the LARGEST common (the allocation must hold every tentative definition), the first among equals *)
 MaxCommon(fs, S, n) ==
-    LET big == IF \E f \in S : D(fs, f, n) = "common8" THEN "common8" ELSE "common4"
-    IN MinOf({f \in S : D(fs, f, n) = big})
+    LET big == CHOOSE z \in {CSize(D(fs, f, n)) : f \in S} : \A f \in S : CSize(D(fs, f, n)) <= z
+    IN MinOf({f \in S : CSize(D(fs, f, n)) = big})
 
 NoTarget == [t |-> "undefined", f |-> 0, n |-> ""]
 ElfRule(fs, L, n) ==
@@ -108,8 +109,7 @@ RefTarget(fs, op, L, f, n) ==
 
 RefKeys(fs, L) == {<<f, n>> \in FIdx(fs) \X NameSet : f \in L /\ ~Shared(fs, f) /\ D(fs, f, n) # "none"}
 TargetStr(t) == CASE t.t = "def" -> "d" \o ToString(t.f) \o ":" \o t.n
-                  [] t.t = "common4" -> "common4" [] t.t = "common8" -> "common8"
-                  [] OTHER -> t.t
+                  [] OTHER -> t.t     \* common<size> (the size is part of the identity), dyn, zero, undefined
 KeyStr(k) == ToString(k[1]) \o ":" \o k[2]
 
 Outcome(fs, op, L, dup, Tgt(_, _)) ==
@@ -128,6 +128,11 @@ Outcome(fs, op, L, dup, Tgt(_, _)) ==
    line.  A file is loaded iff it is not optional or it provides a name some loaded file references
    non-weakly (shared objects do not pull in shared objects).  By construction LFP depends on the
    command line only through the relative order of the DEFINITIONS of each name. *)
+(* Nothing in LFP (nor in ElfRule / Scan) depends on WHERE in a file's symbol table a reference sits
+   or on how many other symbols the file has: a file is modelled by the set of its per-name records.
+   The implementation resolves the symbols of an object in chunks of 5000 (MAX_SYMBOLS_PER_WORK_ITEM);
+   the harness therefore replays sampled configurations with the referencing objects padded so that
+   the reference lands on / next to the chunk boundaries, with the SAME expected outcome. *)
 Provider(fs, n) == IF Definers(fs, n) = {} THEN 0 ELSE MinOf(Definers(fs, n))
 Pulls(fs, op, f) ==
     {Provider(fs, m) : m \in NeedsOf(fs, op, f)} \ {0}
@@ -267,7 +272,7 @@ ScanAgreesWithElfRule(fs, op) ==
           IN \/ ElfDuplicate(fs, op, st.ld)
              \/ /\ s.k = "def" <=> r.t = "def"
                 /\ s.k = "def" => s.f = r.f
-                /\ s.k = "common" <=> r.t \in {"common4", "common8"}
+                /\ s.k = "common" <=> IsCommon(r.t)
                 /\ s.k = "shared" => r.t = "dyn"
 
 -----------------------------------------------------------------------------
